@@ -234,7 +234,18 @@ func genSend(r *hv.Rand) {
 	// regression corpus: the original retransmission-timeout code dropped frames[0] once RTO > maxRTO
 	runSend("send-rto-outage", 0, 0, []sop{{kind: 'W', len: 5, a: 1}, {kind: 'T'}, {kind: 'T'}, {kind: 'T'}, {kind: 'T'}, {kind: 'T'}, {kind: 'T'}, {kind: 'T'}, {kind: 'A', ack: 2}}, true)
 
-	for k := 0; k < hv.Scale(200, 4000); k++ {
+	// acknowledgements beyond anything sent (repaired by group `wire`: errAckBeyondSent closes the tube; the
+	// original code indexed frames[0] of an empty buffer and panicked)
+	for _, sc := range [][]sop{
+		{{kind: 'A', ack: 2}},
+		{{kind: 'W', len: 3, a: 1}, {kind: 'A', ack: 3}, {kind: 'W', len: 1, a: 2}, {kind: 'T'}},
+		{{kind: 'W', len: 70000, a: 9}, {kind: 'A', ack: 3}, {kind: 'A', ack: 5}, {kind: 'A', ack: 4}, {kind: 'F'}},
+		{{kind: 'W', len: 3, a: 1}, {kind: 'F'}, {kind: 'A', ack: 3}, {kind: 'A', ack: 1 << 31}},
+	} {
+		runSend("send-ack-beyond-sent", 0, 0, sc, true)
+	}
+
+	for k := 0; k < hv.Scale(200, 900); k++ {
 		class := hv.Pick(r, []string{"send-mixed", "send-mixed", "send-mixed", "send-rto-outage", "send-rto-outage", "send-dupacks", "send-dupacks", "send-wrap-2^32", "send-wrap-2^32", "send-big-writes"})
 		var sc []sop
 		var ack0 uint64
